@@ -202,7 +202,7 @@ fn cmd_check(args: &[String]) -> i32 {
         assumptions: spec.assumptions.iter().map(|s| s.to_string()).collect(),
         real_vs_stub: json!({
             "real": ["vibesql-parser", "vibesql-ast", "vibesql-catalog", "vibesql-storage", "vibesql-executor (compiled from /repo working tree with --cfg vibesql_verif)"],
-            "controlled": ["std RandomState seeding via in-binary getrandom()"],
+            "controlled": ["std RandomState seeding and rand::thread_rng (getrandom crate stand-in sim/simgetrandom02) via in-binary getrandom()", "rayon operators: stand-in crate sim/simrayon; never-parallel thresholds outside scen_mask"],
             "stub": spec.stubs,
         }),
         extra,
